@@ -1,6 +1,7 @@
 package main
 
 import (
+	"bytes"
 	"fmt"
 	"math"
 	"reflect"
@@ -302,6 +303,8 @@ func runC05(r *Run) {
 		}
 	}
 	r.Extra["built"], r.Extra["rejected"] = nbuilt, nrej
+	c05Entry(r)
+	c05SameName(r)
 	// layouts of random struct types against the model (sizeof / alignof / offsets)
 	for i := 0; i < r.N(150, 3000); i++ {
 		g := genStructType(r.Rng, TypeGenCfg{MaxDepth: 1 + r.Rng.Intn(3), Dynamic: true, AllowUnsupported: i%3 == 0})
@@ -313,4 +316,179 @@ func runC05(r *Run) {
 		r.Add(cApp("KLayout", g.Coq(), cZ(int64(rt.Size())), cZ(int64(rt.Align())), cList(offs)), map[string]any{"type": g.Coq()}, "layout/"+g.Coq())
 		r.Count("layout/random")
 	}
+}
+
+// c05Entry: the value handed to Schema.Codec / ReadFile as "out" must be a struct or a
+// pointer to one; every other kind (in particular a pointer to a pointer variable) is
+// refused when the decoder is built, and nothing around it is written.
+func c05Entry(r *Run) {
+	type rec struct {
+		A int64 `json:"a"`
+		B int64 `json:"b"`
+		C int64 `json:"c"`
+	}
+	s := avro.Schema{Type: "record", Object: &avro.SchemaObject{Name: "rec", Fields: []avro.SchemaRecordField{
+		{Name: "a", Type: prim("long")}, {Name: "b", Type: prim("long")}, {Name: "c", Type: prim("long")}}}}
+	type holder struct {
+		Before [4]uint64
+		P      *rec
+		After  [4]uint64
+	}
+	newHolder := func() *holder {
+		return &holder{Before: [4]uint64{0xA5A5, 0x5A5A, 0xC3C3, 0x3C3C}, After: [4]uint64{0x1111, 0x2222, 0x3333, 0x4444}}
+	}
+	intact := func(h *holder) bool {
+		return h.Before == [4]uint64{0xA5A5, 0x5A5A, 0xC3C3, 0x3C3C} && h.After == [4]uint64{0x1111, 0x2222, 0x3333, 0x4444}
+	}
+	body := append(append(specVarint(11), specVarint(22)...), specVarint(33)...)
+	ct := &Container{SchemaJSON: []byte(schemaJSON(s)), Codec: "null", Sync: randSync(r.Rng),
+		Blocks: []CBlock{{Count: 2, Payload: append(append([]byte{}, body...), body...)}}}
+	file := ct.Bytes(false)
+	var pr *rec
+	ppr := &pr
+	i64 := int64(0)
+	outs := []struct {
+		name string
+		out  any
+		ok   bool
+	}{
+		{"struct", rec{}, true}, {"*struct", &rec{}, true}, {"**struct", &pr, false}, {"***struct", &ppr, false},
+		{"[]struct", []rec{}, false}, {"map[string]struct", map[string]rec{}, false}, {"[1]struct", [1]rec{}, false},
+		{"int64", int64(0), false}, {"*int64", &i64, false}, {"string", "x", false}, {"*[]struct", &[]rec{}, false},
+	}
+	for _, o := range outs {
+		desc := map[string]any{"entry": "Schema.Codec", "out": o.name}
+		c, err := func() (c avro.Codec, err error) {
+			defer func() {
+				if p := recover(); p != nil {
+					err = fmt.Errorf("PANIC: %v", p)
+				}
+			}()
+			return s.Codec(o.out)
+		}()
+		r.Count("entry/" + o.name)
+		switch {
+		case isPanicErr(err):
+			r.Fail(-1, "build-panic", "Schema.Codec panics for out of kind "+o.name+": "+err.Error(), desc)
+		case o.ok && err != nil:
+			r.Fail(-1, "entry-refused", "Schema.Codec refuses out of kind "+o.name+": "+err.Error(), desc)
+		case !o.ok && err == nil && c != nil:
+			r.Fail(-1, "entry-accepted-wrong-kind", "Schema.Codec builds a decoder for out of kind "+o.name+" (neither a struct nor a pointer to one)", desc)
+		}
+	}
+	// ReadFile with a pointer to a pointer variable that sits between canaries
+	h := newHolder()
+	err := func() (err error) {
+		defer func() {
+			if p := recover(); p != nil {
+				err = fmt.Errorf("PANIC: %v", p)
+			}
+		}()
+		return avro.ReadFile(bytes.NewReader(file), &h.P, func(unsafe.Pointer, *avro.ResourceBank) error { return nil })
+	}()
+	desc := map[string]any{"entry": "ReadFile", "out": "**struct", "file": hexs(file)}
+	switch {
+	case !intact(h):
+		r.Fail(-1, "store-outside-destination", "ReadFile with out = pointer to a pointer variable wrote over the words around that variable", desc)
+	case isPanicErr(err):
+		r.Fail(-1, "decode-panic", "ReadFile with out = **struct panics: "+err.Error(), desc)
+	case err == nil:
+		r.Fail(-1, "entry-accepted-wrong-kind", "ReadFile accepts out = **struct", desc)
+	}
+}
+
+// c05SameName: decoders are built per (schema, Go type); two distinct struct types that
+// print the same (local types of the same name in different functions) must not share one.
+func c05SameName(r *Run) {
+	s := avro.Schema{Type: "record", Object: &avro.SchemaObject{Name: "row", Fields: []avro.SchemaRecordField{
+		{Name: "id", Type: prim("long")}, {Name: "score", Type: prim("long")}}}}
+	body := append(specVarint(0x1111), specVarint(0x2222)...)
+	tA, tB, tC := c05RowA(), c05RowB(), c05RowC()
+	desc := map[string]any{"types": []string{tA.String(), tB.String(), tC.String()}}
+	for i, t := range []reflect.Type{tA, tB, tC, tA} {
+		st := reflect.StructOf([]reflect.StructField{
+			{Name: "Pre", Type: reflect.TypeOf([4]uint64{})}, {Name: "F", Type: t}, {Name: "Post", Type: reflect.TypeOf([4]uint64{})}})
+		dst := reflect.New(st).Elem()
+		for k := 0; k < 4; k++ {
+			dst.Field(0).Index(k).SetUint(0xA5A5A5A5)
+			dst.Field(2).Index(k).SetUint(0x5A5A5A5A)
+		}
+		c, err := func() (c avro.Codec, err error) {
+			defer func() {
+				if p := recover(); p != nil {
+					err = fmt.Errorf("PANIC: %v", p)
+				}
+			}()
+			return s.Codec(reflect.New(t).Elem().Interface())
+		}()
+		if err != nil {
+			r.Fail(-1, "in-range-rejected", fmt.Sprintf("same-named type %d: Schema.Codec fails: %v", i, err), desc)
+			continue
+		}
+		rerr := func() (err error) {
+			defer func() {
+				if p := recover(); p != nil {
+					err = fmt.Errorf("PANIC: %v", p)
+				}
+			}()
+			return c.Read(avro.NewReadBuf(body), dst.Field(1).Addr().UnsafePointer())
+		}()
+		ok := rerr == nil
+		for k := 0; k < 4; k++ {
+			ok = ok && dst.Field(0).Index(k).Uint() == 0xA5A5A5A5 && dst.Field(2).Index(k).Uint() == 0x5A5A5A5A
+		}
+		// every field named in the schema holds its value, every other field stays zero
+		f := dst.Field(1)
+		for k := 0; k < t.NumField(); k++ {
+			want := int64(0)
+			switch fieldJSONName(t.Field(k)) {
+			case "id":
+				want = 0x1111
+			case "score":
+				want = 0x2222
+			}
+			if f.Field(k).Int() != want {
+				ok = false
+			}
+		}
+		r.Count("same-name/decoded")
+		if !ok {
+			r.Fail(-1, "store-outside-destination", fmt.Sprintf("struct types that print alike (%s): decoding into type %d of the sequence stored %v (err %v)", t, i, f.Interface(), rerr), desc)
+		}
+	}
+}
+
+func fieldJSONName(sf reflect.StructField) string {
+	n := sf.Tag.Get("json")
+	if i := strings.Index(n, ","); i >= 0 {
+		n = n[:i]
+	}
+	if n == "" {
+		return sf.Name
+	}
+	return n
+}
+
+func c05RowA() reflect.Type {
+	type row struct {
+		ID    int64 `json:"id"`
+		Score int64 `json:"score"`
+	}
+	return reflect.TypeOf(row{})
+}
+
+func c05RowB() reflect.Type {
+	type row struct {
+		Score int64 `json:"score"`
+	}
+	return reflect.TypeOf(row{})
+}
+
+func c05RowC() reflect.Type {
+	type row struct {
+		ID      int64 `json:"id"`
+		Private int64 `json:"-"`
+		Narrow  int16 `json:"score"`
+	}
+	return reflect.TypeOf(row{})
 }
